@@ -91,7 +91,14 @@ def main():
     shutil.copy(demo, os.path.join(dst, "demo.rs"))
     if notes:
         open(os.path.join(dst, "NOTES.md"), "w").write(notes)
-    json.dump(meta, open(os.path.join(dst, "meta.json"), "w"), indent=1)
+    mp = os.path.join(dst, "meta.json")
+    if os.path.exists(mp):
+        old = json.load(open(mp))
+        if old.get("checks") and old.get("checks") != results:
+            meta["first_run"] = old.get("first_run") or {"checks": old.get("checks"), "caught_by": old.get("caught_by"), "validated_at": old.get("validated_at")}
+    json.dump(meta, open(mp, "w"), indent=1)
+    os.makedirs("/tmp/seedmeta", exist_ok=True)
+    json.dump(meta, open("/tmp/seedmeta/%s-%d.json" % (name, int(time.time())), "w"), indent=1)
     print(json.dumps({k: meta[k] for k in ["name", "valid", "caught_by", "suite_with_patch", "demo_fails_with_patch", "demo_passes_without_patch"]}), json.dumps(results)[:600])
     return 0
 
